@@ -53,10 +53,26 @@ func genList(g *vh.Gen, pool []string, wild bool) string {
 	for i := range xs {
 		d := g.Pick(pool...)
 		if wild && g.Chance(0.5) {
-			if i := strings.IndexByte(d, '.'); i >= 0 {
-				d = "*" + d[i:]
-			} else {
-				d = d + "*"
+			switch g.Intn(5) {
+			case 0, 1:
+				if i := strings.IndexByte(d, '.'); i >= 0 {
+					d = "*" + d[i:]
+				} else {
+					d = d + "*"
+				}
+			case 2: // one character replaced by '?'
+				if k := g.Intn(len(d)); d[k] != '[' && d[k] != ']' {
+					d = d[:k] + "?" + d[k+1:]
+				}
+			case 3: // a star in the middle or at the end of a label
+				k := 1 + g.Intn(len(d))
+				d = d[:k] + "*"
+			default: // prefix star without a dot, and a '?' label
+				if i := strings.IndexByte(d, '.'); i >= 0 {
+					d = "*" + d[i+1:]
+				} else {
+					d = "?" + d
+				}
 			}
 		}
 		xs[i] = flipCase(g, d, 0.2)
